@@ -4,8 +4,8 @@
 #include "vh.hpp"
 
 typedef Goldilocks::Element E;
-static vh::Out *out;
-static long long cur_case = 0;
+static thread_local vh::Out *out;
+static thread_local long long cur_case = 0;
 
 static void ev(const char *op, const char *form, const char *alias, uint64_t a, uint64_t b, uint64_t r)
 {
@@ -77,11 +77,13 @@ int main(int argc, char **argv)
         return 2;
     }
     auto cases = vh::read_cases(argv[1]);
-    vh::Out o(argv[2]);
+    return vh::run_partitioned(argv[2], [&](vh::Out &o, int tid_, int nth_) -> int {
     out = &o;
-    for (auto &c : cases)
+    for (size_t idx_ = 0; idx_ < cases.size(); idx_++)
     {
-        cur_case++;
+        auto &c = cases[idx_];
+        cur_case = (long long)idx_ + 1;
+        o.mute = (int)(idx_ % (size_t)nth_) != tid_; // every thread makes every call at (roughly) the same time; one of them records it
         const std::string &op = c[0];
         uint64_t a = vh::parse_u64(c[1]), b = vh::parse_u64(c[2]);
         bool all = c.size() > 3 && c[3] == "1";
@@ -163,4 +165,5 @@ int main(int argc, char **argv)
         }
     }
     return 0;
+    });
 }
